@@ -56,7 +56,7 @@ def parseProbes (s : String) (msg0 : Nat) : Probes × Nat := Id.run do
   for t in s.splitOn ";" do
     match t.splitOn ":" with
     | ["sf", r] => p := { p with server := p.server ++ [{ flush := sIoRes r }] }
-    | ["ss", r, n, sz] =>
+    | ["ss", n, sz, r] =>
       let ok := r == "ok"
       p := { p with sends := p.sends ++ [(ok, n.toNat?.getD 0, sz.toNat?.getD 0)] }
       match p.server.reverse with
